@@ -420,6 +420,14 @@ def bounded(rep, tier):
     fails = {}
     extra = ["select -'x'", 'CREATE SKILL s USING a=1', "CREATE KNOWLEDGE_BASE k USING model='m'", "select a->>'b'", 'select 1 as ""', 'CREATE CHATBOT c USING model = m', '', ' ', ';', '((((', 'select',
              'select ' + '(' * 50 + '1' + ')' * 50, 'select \x00', 'select "', "select '", 'select `', 'select @', 'select 1e5', 'select 1.', 'select .5', 'select é', 'select 🙂 from t']
+    # reasonably sized but long inputs: chains of several hundred operators / list items / set operations (a few KB of SQL) in every clause that takes an
+    # expression - the LR driver is iterative, so no RecursionError may escape - also when a syntax error follows the long part
+    chain = ' OR '.join(f'id = {i}' for i in range(700))
+    arith = ' + '.join(f'c{i}' for i in range(700))
+    extra += [f'select * from t where {chain}', f'select a from t group by a having {chain}', f'select * from t1 join t2 on {chain}', f'select {arith} from t',
+              f'select * from t where {chain} order by a limit 1', f'select * from t where {chain} )', f'select a from t where a in ({", ".join(str(i) for i in range(3000))})',
+              f'update t set a = 1 where {chain}', f'delete from t where {chain}', 'select ' + ', '.join(f'c{i}' for i in range(2000)) + ' from t',
+              ' union '.join(f'select {i}' for i in range(300)), f'select case when {chain} then 1 else 0 end from t']
     for dname in lrtab.DIALECTS:
         d = lrtab.load(dname)
         lx = d.lexemes()
